@@ -125,7 +125,7 @@ def parse_assumptions(log):
 
 
 class Ctx:
-    def __init__(self, pid, tier, seed, report_as=None):
+    def __init__(self, pid, tier, seed, report_as=None, keep_replays=False):
         self.pid, self.tier, self.seed = pid, tier, seed
         self.report_as = report_as or pid      # property id printed in VIOLATION / KNOWN-FINDING lines
         self.t0 = time.time()
@@ -140,7 +140,7 @@ class Ctx:
         self.known = json.load(open(kf))["findings"] if os.path.exists(kf) else []
         os.makedirs(os.path.join(VERIF, "replays"), exist_ok=True)
         import glob as _glob
-        for old in _glob.glob(os.path.join(VERIF, "replays", pid + "-*.json")):
+        for old in ([] if keep_replays else _glob.glob(os.path.join(VERIF, "replays", pid + "-*.json"))):
             os.remove(old)
         os.makedirs(os.path.join(VERIF, "evidence"), exist_ok=True)
 
